@@ -164,8 +164,13 @@ pub fn exec_action(w: &Rc<World>, a: &Action) {
             // zip of two constants is itself a constant node (no dependencies)
             let rk = {
                 let nodes = w.nodes.borrow();
-                match (&nodes[x].rk, &nodes[y].rk) {
-                    (RK::Const(MV::I(a)), RK::Const(MV::I(b))) => RK::Const(MV::P(*a, *b)),
+                let konst = |rk: &RK| match rk {
+                    RK::Const(MV::I(a)) => Some(*a),
+                    RK::BConst(a) => Some(*a),
+                    _ => None,
+                };
+                match (konst(&nodes[x].rk), konst(&nodes[y].rk)) {
+                    (Some(a), Some(b)) => RK::Const(MV::P(a, b)),
                     _ => RK::Zip { a: x, b: y },
                 }
             };
@@ -286,14 +291,14 @@ pub fn exec_action(w: &Rc<World>, a: &Action) {
             if live.is_empty() { return skipped(w, "no memo") }
             let mi = live[*m % live.len()];
             let f = w.memos.borrow()[mi].f.clone().unwrap();
-            let (n, hid, fresh) = memo_call(w, mi, &f, *key);
+            let (n, hid, fresh, prev_alive) = memo_call(w, mi, &f, *key);
             // the driver keeps the returned handle as an ordinary top-level node handle
             let mut nodes = w.nodes.borrow_mut();
             if hid != usize::MAX && nodes[hid].h.is_none() {
                 nodes[hid].h = Some(NodeH::I(n));
             }
             drop(nodes);
-            act(w, Act::MemoCall { m: mi, key: key.rem_euclid(3), hid, fresh });
+            act(w, Act::MemoCall { m: mi, key: key.rem_euclid(3), hid, fresh, prev_alive });
         }
         Action::DropMemo { m } => {
             let live: Vec<usize> = w.memos.borrow().iter().enumerate().filter(|(_, e)| e.f.is_some()).map(|(i, _)| i).collect();
@@ -339,8 +344,10 @@ pub type MemoFn = Rc<RefCell<Box<dyn FnMut(i64) -> Incr<i64>>>>;
 
 /// Calls memoised function `mi` through the given clone of it. Returns (node, hid, fresh);
 /// hid is usize::MAX when the returned node is not one the underlying function made for this key.
-pub fn memo_call(w: &Rc<World>, mi: usize, f: &MemoFn, key: i64) -> (Incr<i64>, Hid, bool) {
+pub fn memo_call(w: &Rc<World>, mi: usize, f: &MemoFn, key: i64) -> (Incr<i64>, Hid, bool, Option<Hid>) {
     let key = key.rem_euclid(3);
+    // is a node made earlier for this key still referenced anywhere?
+    let prev_alive = w.memos.borrow()[mi].made.iter().rev().find(|(k, _, wk)| *k == key && wk.strong_count() > 0).map(|(_, h, _)| *h);
     let flag = w.memos.borrow()[mi].fresh_flag.clone();
     flag.set(None);
     let n = (f.borrow_mut())(key);
@@ -358,7 +365,7 @@ pub fn memo_call(w: &Rc<World>, mi: usize, f: &MemoFn, key: i64) -> (Incr<i64>, 
                 .unwrap_or(usize::MAX)
         }
     };
-    (n, hid, fresh.is_some())
+    (n, hid, fresh.is_some(), prev_alive)
 }
 
 pub fn do_stabilise(w: &Rc<World>) {
@@ -439,6 +446,10 @@ pub fn do_observe(w: &Rc<World>, pool: Pool, idx: usize) {
 pub fn do_drop_obs(w: &Rc<World>, obs: usize, clone: usize) {
     let Some(oid) = w.pick_obs(obs) else { return skipped(w, "no observer") };
     let c = w.live_clone(oid, clone).unwrap();
+    let last = w.obs.borrow()[oid].clones.iter().filter(|x| x.is_some()).count() == 1;
+    if last && !w.model.borrow().can_end_observer(oid) {
+        return skipped(w, "observer pins a bind whose nodes are needed");
+    }
     let h = w.obs.borrow_mut()[oid].clones[c].take();
     act(w, Act::DropObs { oid, clone: c });
     drop(h);
@@ -450,6 +461,9 @@ pub fn do_disallow(w: &Rc<World>, obs: usize) {
 }
 pub fn disallow_oid(w: &Rc<World>, oid: usize) {
     let Some(c) = w.live_clone(oid, 0) else { return skipped(w, "no handle") };
+    if !w.model.borrow().can_end_observer(oid) {
+        return skipped(w, "observer pins a bind whose nodes are needed");
+    }
     {
         let obs = w.obs.borrow();
         obs[oid].clones[c].as_ref().unwrap().disallow();
